@@ -24,7 +24,7 @@ MANIFEST = {
     'text': 'Every code point (BMP in quick, all 0x110000 in thorough) and '
             'every string up to length 4/5 over & < > " \' a e-acute emoji '
             'blank newline, plus every special character at every position of multi-line / long / entity-bearing carriers, as str and as bytes in the template encoding, is inserted '
-            'through 37 forms (incl. a second insertion after a clean / tainted one, and insertions inside block bodies and nested blocks) (entity, html_quote in three syntaxes, '
+            'through 42 forms (incl. a second insertion after a clean / tainted one, and insertions inside block bodies and nested blocks) (entity, html_quote in three syntaxes, '
             'expression, full path with size/null/missing/etc, '
             'fmt=html-quote, plain) on the real code; each result must equal '
             'html.escape(value, quote=True) (plain forms: the value).  '
@@ -105,6 +105,18 @@ FORMS = [
      '<dtml-except>E</dtml-try>', True),
     ('with-fmt', 'HTML', '<dtml-with "_.namespace(y=1)"><dtml-var x '
      'fmt=html-quote size=99></dtml-with>', True),
+    # secondary bodies: the else of a loop over nothing, of a batch, of the
+    # previous / next forms
+    ('in-else-ent', 'HTML', '<dtml-in none>n<dtml-else>&dtml-x;|<dtml-var x '
+     'html_quote></dtml-in>', True),
+    ('inb-else-hq', 'HTML', '<dtml-in none size=2>n<dtml-else><dtml-var x '
+     'html_quote>|&dtml-x;</dtml-in>', True),
+    ('in-prev-else', 'HTML', '<dtml-in two size=2 previous>n<dtml-else>'
+     '&dtml-x;|&dtml-x;</dtml-in>', True),
+    ('in-next-else', 'HTML', '<dtml-in two size=2 next>n<dtml-else>'
+     '&dtml-x;|&dtml-x;</dtml-in>', True),
+    ('try-except-ent', 'HTML', '<dtml-try><dtml-var nowhere><dtml-except>'
+     '&dtml-x;|&dtml-x;</dtml-try>', True),
     ('epfs-if-full', 'String', '%(if c)[%(x html_quote size=99)s%(if c)]',
      True),
     # variables whose names are the one-letter codes of compiled blocks
@@ -122,7 +134,10 @@ FORM_BY_ID = {f[0]: f for f in FORMS}
 EXPECT = {'text-around': '[%s|%s]', 'after-clean-ent': 'word|%s',
           'after-clean-hq': 'word|%s', 'after-clean-mixed': 'word|%s',
           'after-tainted': '&lt;t&gt;|%s', 'in-loop': 'word|%s,word|%s,',
-          'in-full': '%s,%s,', 'hq-named-h': '%s|%s'}
+          'in-full': '%s,%s,', 'hq-named-h': '%s|%s',
+          'in-else-ent': '%s|%s', 'inb-else-hq': '%s|%s',
+          'in-prev-else': '%s|%s', 'in-next-else': '%s|%s',
+          'try-except-ent': '%s|%s'}
 
 
 def expected(form, value):
@@ -183,7 +198,8 @@ def template(form, encoding=None, pre=False, variant='new'):
             # this compiled template has inserted a tainted value before
             from AccessControl.tainted import TaintedString
             p = TaintedString('<pre&>')
-            t(x=p, c='word', two=[1, 2], t=tainted(), n=0, h=p, v=p, i=p)
+            t(x=p, c='word', two=[1, 2], t=tainted(), n=0, h=p, v=p, i=p,
+              none=[])
         _tcache[key] = t
     return t
 
@@ -385,7 +401,7 @@ def render(form, value, enc=None, pre=False, variant='new'):
     t = template(form, None if variant != 'new' else enc, pre, variant)
     try:
         return t(x=value, c='word', two=[1, 2], t=tainted(), n=0, h=value,
-                 v=value, i=value)
+                 v=value, i=value, none=[])
     except Exception as e:       # CaseTimeout is a BaseException
         return e
 
